@@ -298,10 +298,11 @@ def Run(tier):
     rng.shuffle(big)
     abs_cfgs = (small + big)[:max(t['abstract_cap'], len(small))]
   skip_models = bool(os.environ.get('C14_SKIP_MODELS'))   # development aid
+  # the code (since the fix: commit for F-C14-lower-half-external) and its
+  # transcription treat the finding's shape like any other configuration
+  clean_m, shaped_m = hand, []
   if skip_models:
-    abs_cfgs, clean_m, shaped_m = abs_cfgs[:50], clean[:50], shaped[:20]
-  else:
-    clean_m, shaped_m = clean, shaped
+    abs_cfgs, clean_m = abs_cfgs[:50], hand[:50]
   for part in Shard([{'id': i, 'cfg': c} for i, c in abs_cfgs], t['shards']):
     jobs.Submit('abs', 'MCConcertina', 'MCConcertina.cfg', part,
                 coverage=True)
@@ -326,7 +327,10 @@ def Run(tier):
     jobs.Submit('trh', 'ConcertinaTrace', 'ConcertinaTrace.cfg', part)
 
   rng = common.Rng('c14/programs/' + tier)
-  cases = [c14run.GenProgram(rng, 'p%04d' % k) for k in range(t['programs'])]
+  cases = [c14run.GenProgram(rng, 'p%04d' % k, multi=(k % 4 == 0),
+                             orders=(3 if tier == 'quick' else 6))
+           for k in range(t['programs'])]
+  cases.append(c14run.ThreeRequestsCase())
   case_by_id = {c['id']: c for c in cases}
   plain_cases = [c for c in cases if not c['meta']['data']]
   stub_cases = []
@@ -410,7 +414,7 @@ def Run(tier):
         Account(r)
       if not r.ok:
         machinery.append('ConcertinaImpl => Concertina failed on %s '
-                         '(clean configurations): %s' % (path, r.out[-2500:]))
+                         ': %s' % (path, r.out[-2500:]))
       for s in r.Printed('B'):
         try:
           b = json.loads(json.loads(s[6:-2]))
@@ -497,6 +501,15 @@ def Run(tier):
                                      if len(l['cfg']['iters']) > 1),
           'rename_path': sum(1 for l in prog_lines
                              if l['_'].get('rename')),
+          'requests_of_3_or_more': sum(1 for l in prog_lines
+                                       if len(l['_']['subset']) >= 3),
+          'accumulated_renames': sum(
+              1 for l in prog_lines if len(l['_']['subset']) >= 3 and
+              l['_'].get('renamed_in_one', 0) >= 2),
+          'accumulated_renames_generated': sum(
+              1 for l in prog_lines if len(l['_']['subset']) >= 3 and
+              l['_'].get('renamed_in_one', 0) >= 2 and
+              not l['id'].startswith('x-')),
           'with_data_table': sum(1 for c in cases if c['meta']['data']),
           'max_statements': max([l['cfg']['n'] for l in prog_lines] + [0]),
           'max_reps': max([g['reps'] for l in prog_lines
@@ -513,7 +526,9 @@ def Run(tier):
               1 for l in prog_lines + stub_lines
               if l['cfg']['n'] and c14cfg.LowerHalfExternal(l['cfg']))}
   for k in ('multi_requests', 'tables_compared', 'with_iteration',
-            'with_two_iterations', 'rename_path', 'with_data_table',
+            'with_two_iterations', 'rename_path', 'requests_of_3_or_more',
+            'accumulated_renames', 'accumulated_renames_generated',
+            'with_data_table',
             'runmany_real', 'stub_signal_raised'):
     if not comp[k]:
       machinery.append('compiled part vacuous: %s = 0' % k)
@@ -610,10 +625,9 @@ def Run(tier):
                      'exact; DuckDB-compiled plans are not executed as SQL',
                      'configuration family for n>=4 is sampled (seeded), for '
                      'n<=3 exhaustive within the bounds in coverage.rule',
-                     'ConcertinaImpl => Concertina is checked on the '
-                     'configurations without the listed finding\'s shape; on '
-                     'the shape itself TLC reports the violation '
-                     '(model_reproduces_finding)'])
+                     'ConcertinaImpl transcribes the code as of the fix: '
+                     'commit for the lower-half external requirements; the '
+                     'refinement is checked on every configuration'])
   print('C14 %s: %d hand configurations (%d exhaustive part), %d compiled '
         'executions, %d traces judged by TLC, %d accepted, %d known-finding, '
         '%d violations, TLC states %d / transitions %d, %.1fs' % (
